@@ -1067,6 +1067,14 @@ func (bf *Bitfield) Decode(d *Decoder) error {
 	}
 	cLog(Yellow, "BitField: %x", bytes)
 
+	// bits beyond the core count are padding and must be zero, otherwise the
+	// bitfield would not re-encode to the octets it was read from
+	for i := CoresCount; i < AvailBitfieldBytes*8; i++ {
+		if (bytes[i/8]>>(i%8))&0x01 != 0 {
+			return errors.New("Bitfield padding bits are set")
+		}
+	}
+
 	bitfield, err := MakeBitfieldFromByteSlice(bytes)
 	if err != nil {
 		return err
